@@ -47,26 +47,42 @@ func NewGuardianSets(
 	return gs
 }
 
+// get returns the guardian set with the given index (nil if it is not known yet) together with the
+// current guardian set index. Both are read under the lock that updateGuardianSets holds while it
+// changes them, so a reader never sees the new index with the old list.
+func (gs *GuardianSets) get(index int) (*common.GuardianSet, int) {
+	gs.lock.Lock()
+	defer gs.lock.Unlock()
+	if index >= 0 && index <= gs.currentGuardianSetIndex {
+		return gs.guardianSetLists[index], gs.currentGuardianSetIndex
+	}
+	return nil, gs.currentGuardianSetIndex
+}
+
 func (gs *GuardianSets) GetGuardianSet(ctx context.Context, index int) (*common.GuardianSet, error) {
-	if index <= gs.currentGuardianSetIndex {
-		return gs.guardianSetLists[index], nil
+	guardianSet, currentIndex := gs.get(index)
+	if guardianSet != nil {
+		return guardianSet, nil
 	}
 
 	// Perhaps the guardian set has been updated and we need to query from the chain
-	guardianSets, err := gs.getGuardianSetsRange(ctx, uint32(gs.currentGuardianSetIndex+1), uint32(index))
+	guardianSets, err := gs.getGuardianSetsRange(ctx, uint32(currentIndex+1), uint32(index))
 	if err != nil {
 		return nil, err
 	}
 	gs.updateGuardianSets(guardianSets)
 	gs.guardianSetC <- gs.GetCurrentGuardianSet()
 
-	if index > gs.currentGuardianSetIndex {
-		return nil, fmt.Errorf("invalid guardian index %v, current guardian set index: %v", index, gs.currentGuardianSetIndex)
+	guardianSet, currentIndex = gs.get(index)
+	if guardianSet == nil {
+		return nil, fmt.Errorf("invalid guardian index %v, current guardian set index: %v", index, currentIndex)
 	}
-	return gs.guardianSetLists[index], nil
+	return guardianSet, nil
 }
 
 func (gs *GuardianSets) GetCurrentGuardianSet() *common.GuardianSet {
+	gs.lock.Lock()
+	defer gs.lock.Unlock()
 	return gs.guardianSetLists[gs.currentGuardianSetIndex]
 }
 
@@ -80,7 +96,8 @@ func (gs *GuardianSets) updateGuardianSet(ctx context.Context) {
 	for {
 		select {
 		case <-tick.C:
-			guardianSets, err := GetGuardianSetsFromChain(ctx, gs.ethRpcUrl, gs.ethGovernanceAddress, uint32(gs.currentGuardianSetIndex+1))
+			_, currentIndex := gs.get(-1)
+			guardianSets, err := GetGuardianSetsFromChain(ctx, gs.ethRpcUrl, gs.ethGovernanceAddress, uint32(currentIndex+1))
 			if err != nil {
 				gs.logger.Error("failed to get guardian sets", zap.Error(err))
 				continue
